@@ -76,6 +76,8 @@ type Execution struct {
 	PruneAt   int  // index of the point where the run was cut (Aborted)
 	FinalKey  uint64
 	Preempted int
+	// number of object names known to be shared when the execution started (local-object elision)
+	SharedAtStart int
 }
 
 func (x *Execution) Choices() []int {
@@ -132,7 +134,7 @@ func hstr(s string) uint64 {
 // Run executes main as thread 0 under the choice prefix (default choice 0 afterwards) and returns
 // the record of the execution. All logical threads have exited when it returns.
 func Run(prefix []int, o RunOpts, main func()) *Execution {
-	s := &sched{prefix: prefix, x: &Execution{}, finished: make(chan struct{}), chans: map[uintptr]*chanState{}, objs: map[any]*object{}, verbose: o.Verbose, prune: o.Prune}
+	s := &sched{prefix: prefix, x: &Execution{SharedAtStart: len(sharedOrder)}, finished: make(chan struct{}), chans: map[uintptr]*chanState{}, objs: map[any]*object{}, verbose: o.Verbose, prune: o.Prune}
 	S = s
 	t := s.spawn(nil, main)
 	s.cur = t
@@ -443,6 +445,7 @@ func Op(what string, key any, enabled func() bool, effect func(o *object, ev uin
 		}
 		if o.owner != s.cur {
 			sharedNames[o.name] = true
+			sharedOrder = append(sharedOrder, o.name)
 			NewShared = true
 		} else if enabled == nil || enabled() {
 			t := s.cur
@@ -480,10 +483,32 @@ var (
 	NewShared    bool
 	Elided       int64
 	sharedNames  = map[uint64]bool{}
+	sharedOrder  []uint64 // names in the order they were learnt (Execution.SharedAtStart indexes it)
 )
 
 // ResetShared forgets what was learnt about shared objects (new scenario).
-func ResetShared() { sharedNames = map[uint64]bool{}; NewShared = false }
+func ResetShared() { sharedNames = map[uint64]bool{}; sharedOrder = nil; NewShared = false }
+
+// SharedPrefix returns the first n object names learnt to be shared: with n = Execution.SharedAtStart
+// it is the set under which that execution ran (its scheduling points depend on it, so a replay of
+// its schedule must start from the same set — see SetShared).
+func SharedPrefix(n int) []uint64 {
+	if n > len(sharedOrder) {
+		n = len(sharedOrder)
+	}
+	return append([]uint64{}, sharedOrder[:n]...)
+}
+
+// SetShared installs a recorded set of shared object names (replay of a schedule found with elision on).
+func SetShared(names []uint64) {
+	ResetShared()
+	for _, n := range names {
+		if !sharedNames[n] {
+			sharedNames[n] = true
+			sharedOrder = append(sharedOrder, n)
+		}
+	}
+}
 
 // SharedCount is the number of object names known to be touched by more than one thread.
 func SharedCount() int { return len(sharedNames) }
